@@ -530,7 +530,7 @@ RULE = ('layer A (direct calls through native/harness): normpath on every byte s
         'absolute, ./, //, dir/../, through two symlinked directories, symlink-then-..) from 4 working directories; two or three spellings on '
         'one command line (redo and redo-ifchange, -j1 and -j4; also while another invocation holds the lock of the target), in consecutive commands, and as a dependency declared by a consumer: exactly '
         'one script execution, exit 0, no abort, exactly one Files row, named canonically; the consumer is rebuilt when the real file changes; out-of-band hand-over: a consumer whose script runs outside its own directory (ancestor / parent default rule, script that changes directory) asks through a spelling for a target that is only maybe out of date (above a checksummed target whose input changed, checksum kept or not): executions, bytes, one canonical Files row each, no stray rows. '
-        'Layer C: the same normpath / abs_path / RedoPath workloads (with the reference check inside) interpreted by Miri.')
+        'Layer C: the same normpath / abs_path / RedoPath workloads (with the reference check inside) interpreted by Miri; in the thorough tier also the crate\'s own unit tests of helpers and state (normpath, relpath, realdirpath vectors) interpreted by Miri.')
 ASSUME = ['lexical cleaning is compared with the kernel only on symlink-free trees', 'relpath bases are physical directories (as at redo\'s call sites)',
           'paths ending in . or .. or / are not targets']
 
@@ -575,6 +575,9 @@ def main(tier):
     if not quick:
         from . import memcheck_layer
         memcheck_layer.run(col, PROP, ('normpath', 'redopath'), time.time() + 300)
+        ut = miri_layer.unit_tests(col, PROP, ('helpers::tests', 'state::tests'), time.time() + 600)
+        if isinstance(extra, dict):
+            extra['miri_unit_tests'] = ut
     rc = col.finish(extra_coverage=extra)
     common.cleanup_scratch()
     return rc
